@@ -43,7 +43,7 @@ def rule_reg(ctx):
     for ci in classes:
         fc, fd = flag(p, ci, "from_client"), flag(p, ci, "from_device")
         emit_sites = inst.get(ci.qualname, [])
-        abstract = bool(ci.subclasses) and not emit_sites
+        abstract = bool(ci.subclasses) and not emit_sites and not is_registered(ci)
         if abstract:
             continue
         n += 1
